@@ -4,6 +4,8 @@
 # and reports whether the expected violation key was printed. Removes the worktree afterwards.
 set -u
 PATCH=$(realpath "$1"); PROP=$2; EXPECT=$3
+TIER=""
+case "$EXPECT" in thorough:*) TIER="--tier thorough"; EXPECT=${EXPECT#thorough:};; esac   # expectation of the thorough tier (build configuration B)
 HERE=$(cd "$(dirname "$0")/.." && pwd)
 WT=$(mktemp -d /tmp/mut-XXXXXX)
 git -C /repo worktree add --detach -q "$WT" HEAD || exit 2
@@ -11,7 +13,7 @@ cleanup() { git -C /repo worktree remove --force "$WT" >/dev/null 2>&1; rm -rf "
 trap cleanup EXIT
 if ! git -C "$WT" apply "$PATCH"; then echo "MUTANT $(basename $PATCH): patch does not apply"; exit 2; fi
 EV=$(mktemp -d /tmp/mut-ev-XXXXXX)
-OUT=$(cd "$HERE" && VERIF_REPO="$WT" VERIF_EVIDENCE_DIR="$EV" ./check "$PROP" 2>&1); RC=$?
+OUT=$(cd "$HERE" && VERIF_REPO="$WT" VERIF_EVIDENCE_DIR="$EV" ./check "$PROP" $TIER 2>&1); RC=$?
 rm -rf "$EV"
 if [ "$EXPECT" = "NONE" ]; then
   if [ $RC -eq 0 ]; then echo "MUTANT $(basename $PATCH) [$PROP]: silent as expected"; exit 0; fi
